@@ -51,6 +51,8 @@ class Forced:
                 g.result.reset()
         try:
             res = self.b.execute_circuit(circuit, nshots=nshots)
+            if circuit.measurements:
+                res.samples()  # an execution that is not repeated draws its samples lazily: draw them now, under control
             left = len(self.tape)
         finally:
             self.tape = None
@@ -97,7 +99,10 @@ def distribution(leaves):
     return d
 '''
 
-CHECK = '''fb = Forced()
+CHECK = '''# a circuit with a unitary channel of non-zero strength needs one trajectory per shot in state-vector mode
+strong = any(isinstance(g, gates.UnitaryChannel) and float(np.real(g.coefficient_sum)) > 0 for g in c.queue)
+flag_ok = (not strong) or (bool(c.has_unitary_channel) and bool(c.repeated_execution))
+fb = Forced()
 leaves = tree(fb, c)
 forced = [i for t, _, _ in leaves for i in t]
 res, left = fb.run(c, len(leaves), forced, False)
@@ -110,7 +115,8 @@ dsv, ddm = distribution(leaves), distribution(tree(fb, cdm))
 print("leaves", len(leaves), "unused forced draws", left)
 print("state-vector distribution ", {k: round(v, 6) for k, v in sorted(dsv.items())})
 print("density-matrix distribution", {k: round(v, 6) for k, v in sorted(ddm.items())})
-ok = left == 0 and got == want and set(dsv) == set(ddm) and all(abs(dsv[k] - ddm[k]) < 1e-10 for k in dsv)
+print("non-trivial unitary channel in the queue:", strong, " has_unitary_channel:", c.has_unitary_channel, " repeated_execution:", c.repeated_execution)
+ok = flag_ok and left == 0 and got == want and set(dsv) == set(ddm) and all(abs(dsv[k] - ddm[k]) < 1e-10 for k in dsv)
 '''
 
 
@@ -142,20 +148,37 @@ def gen_case(rng, k):
             return f"gates.DepolarizingChannel(({q},), {rng.choice([0.25, 0.5])})"
         return f"gates.UnitaryChannel(({q},), [(0.25, X), (0.125, Z)])"
 
+    def zero_channel():
+        q = rng.randrange(n)
+        return rng.choice([f"gates.PauliNoiseChannel({q}, [('X', 0.0)])", f"gates.DepolarizingChannel(({q},), 0.0)",
+                           f"gates.UnitaryChannel(({q},), [(0.0, X), (0.0, Z)])", f"gates.PauliNoiseChannel({q}, [('Y', 0), ('Z', 0.0)])"])
+
     def collapse():
         if n >= 3 and rng.random() < 0.25:
             return f"gates.M({', '.join(map(str, rng.sample(range(n), 2)))}, collapse=True)"
         return f"gates.M({rng.randrange(n)}, collapse=True)"
 
     # shape of the queue: U = some unitaries, C = channel, K = collapsing measurement
-    shapes = ["UKUCU", "UKUCUKU", "UCUKUCU", "UCUCUK", "KUCU", "UKUKUCU", "UCKCU", "UUKCKU"]
+    #                     Z = channel of ZERO strength (a perfect qubit in a noise table), N = gates noised through a NoiseModel
+    #                     whose LAST rule to fire has strength zero.  Shapes without K: only the channels make the execution repeated.
+    shapes = ["UKUCU", "UCUZ", "UKUCUKU", "UCZU", "UCUKUCU", "N", "UCUCUK", "ZUCUZ", "KUCU", "UKUKUCU", "UCKCUZ", "UUKCKU", "N", "UZCZ"]
     shape = shapes[k % len(shapes)] if k < 2 * len(shapes) else rng.choice(shapes)
+    if shape == "N":
+        a, b = rng.sample(range(n), 2)
+        lines += [f"c.add(gates.H({a}))", f"c.add(gates.RX({b}, theta=1.25))", f"c.add(gates.CNOT({a}, {b}))", f"c.add(gates.S({a}))",
+                  f"c.add(gates.M({a}, {b}))", "nm = NoiseModel()",
+                  f"nm.add({rng.choice(['PauliError([(\'X\', 0.25)])', 'DepolarizingError(0.5)'])}, gates.{rng.choice(['H', 'CNOT', 'RX'])})",
+                  f"nm.add({rng.choice(['PauliError([(\'X\', 0.0)])', 'DepolarizingError(0.0)', 'DepolarizingError(0)'])}, gates.S)",
+                  "c = nm.apply(c)"]
+        return "\n".join(lines) + "\n", shape
     for ch in shape:
         if ch == "U":
             for _ in range(rng.randint(1, 2)):
                 lines.append(f"c.add({unitary()})")
         elif ch == "C":
             lines.append(f"c.add({channel()})")
+        elif ch == "Z":
+            lines.append(f"c.add({zero_channel()})")
         else:
             lines.append(f"c.add({collapse()})")
     mq = sorted(rng.sample(range(n), rng.randint(1, n)))
@@ -188,7 +211,11 @@ def collapse_suite(ctx, C19):
             continue
         bad += 1
         dsv, ddm = env["dsv"], env["ddm"]
-        if env["left"] or env["got"] != env["want"]:
+        if not env["flag_ok"]:
+            what = ("the circuit contains a unitary channel of non-zero strength but has_unitary_channel / repeated_execution is False "
+                    f"(shape {shape}: the flag must be an OR over all the channels added, whatever the order)")
+            key = "flag:has_unitary_channel"
+        elif env["left"] or env["got"] != env["want"]:
             firstbad = next((i for i, (a, b) in enumerate(zip(env["got"], env["want"])) if a != b), None)
             what = (f"forcing the {len(env['leaves'])} leaves of the one-shot sampling tree one after the other in ONE repeated execution: "
                     f"{env['left']} forced draws unused, first differing shot {firstbad}"
